@@ -210,6 +210,12 @@ func (m *wrappingMetric) Write(out *dto.Metric) error {
 		// No wrapping labels.
 		return nil
 	}
+	// The label slice written by the wrapped metric may be shared with it
+	// (it is immutable by contract), so it must neither be appended to in
+	// place nor sorted in place.
+	wrappedLabels := out.Label
+	out.Label = make([]*dto.LabelPair, len(wrappedLabels), len(wrappedLabels)+len(m.labels))
+	copy(out.Label, wrappedLabels)
 	for ln, lv := range m.labels {
 		out.Label = append(out.Label, &dto.LabelPair{
 			Name:  proto.String(ln),
